@@ -12,9 +12,9 @@
 (* state produced by one call (fold, tzinfo identity) is what the next call   *)
 (* sees.  `last` is an observation variable (action, arguments, registers).   *)
 (***************************************************************************)
-EXTENDS OpsModifiers
+EXTENDS OpsModifiers, OpsRange
 
-CONSTANTS Regs, ZoneRefs, Walls, Deltas, CalShifts, ModUnits, WeekStarts, Overrides, Weekdays
+CONSTANTS Regs, ZoneRefs, Walls, Deltas, CalShifts, ModUnits, WeekStarts, Overrides, Weekdays, RangeSteps
 VARIABLES regs, cfg, last
 vars == <<regs, cfg, last>>
 Absent == [k |-> "absent"]
@@ -81,6 +81,16 @@ OfA(src, dst, which, wd) ==
      IN regs' = [regs EXCEPT ![dst] = NavRef(x, n)]
   /\ last' = Obs(which, src, dst, [unit |-> "month", wd |-> wd])
   /\ UNCHANGED cfg
+\* Queries: calls that take two held values and return something that is not held (an Interval's length, its
+\* components, the values of a range).  They leave the registers alone - stuttering steps on the abstraction -
+\* and exist so that simulated behaviours ask them of values WITH A HISTORY; the answers are judged by Trace.
+Query(op, s1, s2, args) ==
+  /\ Present(s1) /\ Present(s2)
+  /\ last' = Obs(op, s1, "-", args @@ [src2 |-> s2])
+  /\ UNCHANGED <<regs, cfg>>
+LenQ(s1, s2, entry) == Query("iv_len", s1, s2, [entry |-> entry])
+CompQ(s1, s2) == Query("iv_comp", s1, s2, [entry |-> "sub"])
+RangeQ(s1, s2, unit, n, abs) == Query("range", s1, s2, [unit |-> unit, n |-> n, abs |-> abs])
 \* pickle / copy / deepcopy: the abstraction does not change
 CopyA(src, dst, how) ==
   /\ Present(src)
@@ -101,6 +111,9 @@ Next == \/ \E dst \in Regs, zr \in ZoneRefs, w \in Walls, f \in {0, 1} : CreateA
         \/ \E src \in Regs, dst \in Regs, o \in Overrides : SetA(src, dst, o)
         \/ \E src \in Regs, dst \in Regs, wd \in Weekdays : NextA(src, dst, wd) \/ PrevA(src, dst, wd)
         \/ \E src \in Regs, dst \in Regs, wd \in Weekdays, which \in {"first_of", "last_of"} : OfA(src, dst, which, wd)
+        \/ \E s1 \in Regs, s2 \in Regs, en \in {"Interval", "sub", "diff", "abs", "interval_abs"} : LenQ(s1, s2, en)
+        \/ \E s1 \in Regs, s2 \in Regs : CompQ(s1, s2)
+        \/ \E s1 \in Regs, s2 \in Regs, st \in RangeSteps, ab \in BOOLEAN : RangeQ(s1, s2, st[1], st[2], ab)
         \/ \E src \in Regs, dst \in Regs, how \in {"pickle2", "copy", "deepcopy"} : CopyA(src, dst, how)
         \/ \E ws \in WeekStarts : SetWeekA(ws)
 Spec == Init /\ [][Next]_vars
@@ -132,6 +145,13 @@ HistoryIndependent == \A r1 \in Regs, r2 \in Regs :
        \A u \in ModUnits \ {"second", "minute", "hour"} :
           LET s1 == StartOfRef(regs[r1], u, cfg)  s2 == StartOfRef(regs[r2], u, cfg)
           IN s1.w = s2.w /\ InstOf(s1) = InstOf(s2)          \* equal up to the fold attribute of an unambiguous reading
+\* elapsed time between held values is antisymmetric and additive, whatever zones and folds they carry (C05)
+ElapsedConsistent == \A r1 \in Regs, r2 \in Regs, r3 \in Regs : (Present(r1) /\ Present(r2) /\ Present(r3)) =>
+   /\ Elapsed(regs[r1], regs[r2]) = D3Neg(Elapsed(regs[r2], regs[r1]))
+   /\ Elapsed(regs[r1], regs[r3]) = D3Add(Elapsed(regs[r1], regs[r2]), Elapsed(regs[r2], regs[r3]))
+\* fixed-length arithmetic moves the instant by exactly the amount (C03 x C05)
+AddMovesBy == [][\A s \in Regs, d \in Regs, dl \in Deltas :
+                   (AddFixedA(s, d, dl) /\ ~IsNaive(regs[s])) => Elapsed(regs[s], regs'[d]) = D3Of(0, dl[1], dl[2], dl[3], dl[4])]_vars
 \* weekday navigation lands on the requested weekday, at midnight or - where midnight does not exist - at the
 \* first instant of that day, strictly after / before the source day and at most a week away (C16)
 NavOk == \A r \in Regs, wd \in Weekdays : Present(r) =>
